@@ -1110,7 +1110,7 @@ def raw_section(ctx, soup, recipe, stream, r, spec, farg, fmt, unit, grecvs, idm
     queries, reals, metas = [], [], []
     for recv in chosen:
         is_soup = isinstance(recv, BS)
-        kinds = [("p", 0, "D"), ("p", 0, r.choice(encs[1:3])), ("d", None, "D"), ("d", r.choice([0, 1, 2, True, False]), r.choice(encs)),
+        kinds = [("p", 0, "D"), ("p", 0, r.choice(encs[1:3])), ("d", None, "D"), ("d", r.choice([0, 1, 2, True, True]), r.choice(encs)),   # (False dropped: a boolean "no" level is outside the property)
                  ("c", r.choice([None, 0, 1]), r.choice(["D"] + encs)), ("e", r.choice([None, 0, 1]), r.choice(["D"] + encs[1:3])),
                  ("ec", r.choice([None, 0, 2]), r.choice(["D"] + encs[1:3])), ("d", r.choice([None, 0]), None)]
         if spec == ["name", "minimal"]:
